@@ -60,4 +60,8 @@ META = {
             "text": "TLC checks exclusion, freshness and deadlock freedom over all interleavings of 2-3 readers and 2 writers (and finds the pinned tree's deadlock when the repair is disabled); "
                     "recorded histories of the real lock on two endpoints are checked step by step for overlap, stale reads, lost writes and requests that never complete.",
             "note": "Bounds: 3 readers x 2 writers in the model; real code on single-threaded seeded schedules with H1 deferral of remoc's internal tasks. Trusted: TLC, harness tracer, guard logging order."},
+    "C13": {"technique": "TLA+ reference semantics of the collections (Robs.tla): TLC proves mirror = collection for every bounded state x operation, generates operation scripts that are replayed on the real collections, and validates the recorded runs (RobsTrace)",
+            "text": "The model theorem (folding the specified events gives the new contents) is checked exhaustively over 11 782 state/operation pairs; TLC-generated scripts are executed on the real "
+                    "observable, a real mirror (local and remote) and a hand-written consumer, and TLC checks that all three equal the reference contents after every operation.",
+            "note": "Bounds: 3 values, length <= 4, scripts of depth 4-5 sampled by TLC simulation. Trusted: TLC, harness stepper, JSON projection of contents and events."},
 }
